@@ -449,7 +449,10 @@ def _match_known(known, ob_name, v, rep) -> Optional[dict]:
     for k in known:
         if k.get("obligation") not in (None, ob_name):
             continue
-        if k.get("label_re") and not re.search(k["label_re"], v["label"]):
+        # what the real code showed in the replay decides: the atoms that failed there (all of them
+        # must be listed), else the label of the symbolic candidate
+        labels = [a for a in (rep.get("failed_atoms") or []) if isinstance(a, str)] or [v["label"]]
+        if k.get("label_re") and not all(re.search(k["label_re"], lb) for lb in labels):
             continue
         region = k.get("region")
         if region:
